@@ -676,6 +676,10 @@ func init() {
 				if ruleIn(o, "AT", "REQ", "P", "G") && funcHas(o, "(*Exclusive).call") {
 					return true
 				}
+				// coalesced callers are answered when the execution resolves: every write of the item's state wakes them
+				if ruleIn(o, "S", "SL", "WL") && funcHas(o, "(*Exclusive).call") {
+					return true
+				}
 				if o.Rule == "O" && subjHas(o, "exclusiveItem.mutex->Exclusive.mutex") {
 					return true
 				}
